@@ -389,9 +389,9 @@ import re
 
 RULE_FIELDS = {
     "class": ["c1", "c2", "opers", "users"],
-    "hostname": ["*.example.org", "trusted.*", "*", "a.example.org"],
+    "hostname": ["*.example.org", "trusted.*", "*", "a.example.org", ""],
     "username": ["joe", "~*", "*", "oper"],
-    "account": ["alice", "al*", "*", "bob"],
+    "account": ["alice", "al*", "*", "bob", ""],
     "address": ["10.0.0.0/8", "10.1.0.0/16", "127.*", "2001:db8::/32", "*"],
     "trust_username": ["true", "false"],
 }
